@@ -57,6 +57,7 @@ func runC05(c *Ctx) {
 	ruleNoArithmeticOnStatementInts(c, "C05.15")
 	ruleLimitOnlyAtTheEnd(c, "C05.16")
 	ruleNoErrorSwallow(c, "C05.17", "engine")
+	ruleStatementTextUnmodified(c, "C05.18")
 }
 
 // ---- C05.1 ---------------------------------------------------------------------
@@ -943,31 +944,71 @@ func c06JoinMapping(c *Ctx, rule string) {
 	got := map[string]string{}
 	stored := map[string]bool{}
 	hasDefaultInner := false
+	// the edge on which p.match(K) succeeded (val) or failed (!val) dominates the store: the spelling — a tagless
+	// switch, an if/else chain, a helper — does not matter
+	matchEdge := func(loc Loc, kw string, val bool) bool {
+		for _, b := range g.c.Blocks {
+			if !g.Reachable(b) || len(b.Succs) != 2 {
+				continue
+			}
+			for si := 0; si < 2; si++ {
+				info, ok := g.EdgeInfo(b, si)
+				if !ok || info.Case {
+					continue
+				}
+				cond, v := ast.Unparen(info.Cond), info.Val
+				for {
+					u, isNot := cond.(*ast.UnaryExpr)
+					if !isNot || u.Op != token.NOT {
+						break
+					}
+					cond, v = ast.Unparen(u.X), !v
+				}
+				call, isCall := isMatchCall(f, cond)
+				if !isCall || len(call.Args) != 1 || v != val {
+					continue
+				}
+				if cst := f.namedConst(call.Args[0]); cst == nil || cst.Name() != kw {
+					continue
+				}
+				s := b.Succs[si]
+				if g.BlockDominates(s, loc.B) && onlyPred(g, s, b) {
+					return true
+				}
+			}
+		}
+		return false
+	}
 	inspectBody(f.Decl.Body, func(x ast.Node) bool {
-		cc, ok := x.(*ast.CaseClause)
+		as, ok := x.(*ast.AssignStmt)
+		if !ok || len(as.Lhs) != 1 || len(as.Rhs) != 1 {
+			return true
+		}
+		id, ok := as.Lhs[0].(*ast.Ident)
+		if !ok || f.ObjOf(id) != jobj {
+			return true
+		}
+		cst := f.namedConst(as.Rhs[0])
+		if cst == nil {
+			return true
+		}
+		val := cst.Name()
+		stored[val] = true
+		loc, ok := g.Locate(as)
 		if !ok {
 			return true
 		}
-		var val string
-		for _, st := range cc.Body {
-			if as, ok := st.(*ast.AssignStmt); ok && len(as.Lhs) == 1 {
-				if id, ok := as.Lhs[0].(*ast.Ident); ok && f.ObjOf(id) == jobj {
-					if cst := f.namedConst(as.Rhs[0]); cst != nil {
-						val = cst.Name()
-						stored[val] = true
-					}
+		for _, kw := range []string{"LEFT", "RIGHT", "INNER"} {
+			if matchEdge(loc, kw, true) {
+				if prev, dup := got[kw]; !dup || prev == val {
+					got[kw] = val
+				} else {
+					got[kw] = prev + "/" + val
 				}
 			}
 		}
-		if cc.List == nil && val == "INNER_JOIN" {
+		if val == "INNER_JOIN" && matchEdge(loc, "LEFT", false) && matchEdge(loc, "RIGHT", false) {
 			hasDefaultInner = true
-		}
-		for _, e := range cc.List {
-			if call, ok := isMatchCall(f, e); ok && len(call.Args) == 1 {
-				if cst := f.namedConst(call.Args[0]); cst != nil {
-					got[cst.Name()] = val
-				}
-			}
 		}
 		return true
 	})
@@ -1479,7 +1520,10 @@ func c07GroupKey(c *Ctx, rule string) {
 	ast.Inspect(ck, func(y ast.Node) bool {
 		if sel, ok := y.(*ast.SelectorExpr); ok {
 			if t := f.TypeOf(sel.X); t != nil && namedTypeIs(t, "sql", "ColumnReference") && !strings.Contains(exprKey(ck), "colIdx") {
-				hasCol = false
+				// ref.String() is what %s prints: the whole reference; only a field of it loses the qualifier
+				if s := f.Pkg.TypesInfo.Selections[sel]; s == nil || s.Kind() == types.FieldVal {
+					hasCol = false
+				}
 			}
 		}
 		return true
